@@ -42,6 +42,7 @@ class PageByStrategy(PaginationStrategy):
                 not context.rtf_body.new_page
                 or context.rtf_body.pageby_row != "column"
             ),
+            heading_attrs=context.rtf_body,
         )
 
         pages = []
@@ -177,6 +178,7 @@ class SublineStrategy(PageByStrategy):
                 not context.rtf_body.new_page
                 or context.rtf_body.pageby_row != "column"
             ),
+            heading_attrs=context.rtf_body,
         )
 
         pages = []
